@@ -43,6 +43,7 @@ type CancelWorld struct {
 	eid      func(e ipfslog.Entry) string
 	names    map[string]string // cid -> abstract id
 	pending  []explore.Violation
+	timeouts bool // aborted requests end with a deadline error instead of a cancellation
 	failures int // fetch failures still allowed
 	// overlap: the final request was issued while an item queued by an earlier (aborted or failing)
 	// request was still pending in the replicator
@@ -148,7 +149,14 @@ func NewCancelWorld(shape string, concurrency uint, nreq int, failures int) (*Ca
 		if i == len(pick)-1 {
 			r.name, r.ctx, r.cancel = "final", bg, func() {}
 		} else {
-			r.ctx, r.cancel = context.WithCancel(context.Background())
+			mc := newManualCtx()
+			r.ctx, r.cancel = mc, func() {
+				if w.timeouts {
+					mc.end(context.DeadlineExceeded) // the request's deadline expires at this step
+				} else {
+					mc.end(context.Canceled)
+				}
+			}
 		}
 		w.reqs = append(w.reqs, r)
 	}
@@ -372,6 +380,7 @@ type C11Arg struct {
 	// and the write with which the replicator re-derives a fetched entry's address is gated too, so that a
 	// cancellation can land between "entry fetched" and "links queued"
 	LateCancel                        bool
+	Timeouts                          bool // requests are aborted by an expiring deadline, not by cancellation
 	Shape                             string
 	Conc                              uint
 	Reqs, Fails, Bound, Shards, Shard int
@@ -381,6 +390,9 @@ func (a C11Arg) Name() string {
 	lc := ""
 	if a.LateCancel {
 		lc = "/late-cancel"
+	}
+	if a.Timeouts {
+		lc += "/timeouts"
 	}
 	return fmt.Sprintf("cancel/%s/conc%d/reqs%d/fails%d/dev%d%s/shard%d.%d", a.Shape, a.Conc, a.Reqs, a.Fails, a.Bound, lc, a.Shard, a.Shards)
 }
@@ -399,7 +411,7 @@ func c11Units(base C11Arg, shards int) []explore.Unit {
 func init() {
 	explore.Register(&explore.CheckDef{
 		ID: "C11", Level: "model_checking",
-		Rule: "replica B (replication concurrency 1, 2 and default) replicates a remote chain or fork through a scripted sequence of Sync requests (1-2 cancellable ones, then a final uncancelled request for the same or newer heads); every block fetch and the replicator's schedule points (before slot, after dequeue, before done, before load-complete; hooks H2) are gated; the explorer enumerates all executions with a bounded number of deviations from the canonical schedule, where a deviation is: cancelling a request's context at that step, issuing the next request early, failing a parked fetch, or releasing another parked goroutine first. Every execution runs to quiescence after the final request; oracle: all entries reachable from the final heads are in the log and listed. Load variant: a reopened replica with a persisted log (one or two cached heads) runs Load(ctx1) with every block read gated, ctx1 may be cancelled at any step, then an uncancelled Load; both calls must have returned and every persisted entry must be listed. Non-trivial = executions with at least one deviation.",
+		Rule: "replica B (replication concurrency 1, 2 and default) replicates a remote chain or fork through a scripted sequence of Sync requests (1-2 cancellable ones, then a final uncancelled request for the same or newer heads); every block fetch and the replicator's schedule points (before slot, after dequeue, before done, before load-complete; hooks H2) are gated; the explorer enumerates all executions with a bounded number of deviations from the canonical schedule, where a deviation is: cancelling a request's context at that step (in some units its deadline expires instead), issuing the next request early, failing a parked fetch, or releasing another parked goroutine first. Every execution runs to quiescence after the final request; oracle: all entries reachable from the final heads are in the log and listed. Load variant: a reopened replica with a persisted log (one or two cached heads) runs Load(ctx1) with every block read gated, ctx1 may be cancelled or its deadline may expire at any step, then an uncancelled Load; both calls must have returned and every persisted entry must be listed. Non-trivial = executions with at least one deviation.",
 		Units: func(tier string) []explore.Unit {
 			var u []explore.Unit
 			b := 2
@@ -414,6 +426,9 @@ func init() {
 			for _, conc := range []uint{1, 2} {
 				u = append(u, c11Units(C11Arg{Shape: "chain2", Conc: conc, Reqs: 2, Fails: 0, Bound: b, LateCancel: true}, 8)...)
 				u = append(u, c11Units(C11Arg{Shape: "chain3", Conc: conc, Reqs: 2, Fails: 0, Bound: b, LateCancel: true}, 8)...)
+			}
+			for _, conc := range []uint{1, 2} {
+				u = append(u, c11Units(C11Arg{Shape: "chain2", Conc: conc, Reqs: 2, Fails: 0, Bound: b, Timeouts: true}, 8)...)
 			}
 			u = append(u, c11LoadUnits(b+1)...)
 			if tier == "thorough" {
@@ -443,6 +458,9 @@ func init() {
 				Scenario: a.Name(),
 				New: func() (explore.World, error) {
 					w, err := NewCancelWorld(a.Shape, a.Conc, a.Reqs, a.Fails)
+					if err == nil {
+						w.timeouts = a.Timeouts
+					}
 					if err == nil && a.LateCancel {
 						w.net.Gates.Deaf = true
 						w.net.Gates.Enable(func(kind, peer, key, caller string) bool {
